@@ -10,6 +10,7 @@ import (
 	"encoding/base64"
 	"errors"
 	"fmt"
+	"sync"
 
 	"github.com/google/tink/go/subtle/random"
 
@@ -34,6 +35,9 @@ func newWriter(kmsStore kmsapi.Store, opts ...kmsapi.PrivateKeyOpts) *storeWrite
 	}
 }
 
+//nolint:gochecknoglobals
+var keysetIDLock sync.Mutex
+
 // storeWriter struct to store a keyset in a local store.
 type storeWriter struct {
 	storage kmsapi.Store
@@ -48,6 +52,11 @@ func (l *storeWriter) Write(p []byte) (int, error) {
 	var err error
 
 	var ksID string
+
+	// choosing an id that is not taken and writing under it is one step: two writers that ask for the same id must not
+	// both find it free.
+	keysetIDLock.Lock()
+	defer keysetIDLock.Unlock()
 
 	if l.requestedKeysetID != "" {
 		ksID, err = l.verifyRequestedID()
